@@ -311,4 +311,23 @@ Section P.
     intros H Hin. destruct (inv_reach prog s H) as [_ _ _ Hc _ _ _ Hcl].
     destruct (Hcl e Hin) as [Hw _]. destruct (pc s); cbn in Hc; auto; destruct Hc as (_ & B & _) || destruct Hc as (B & _); congruence.
   Qed.
+
+  (* the one cell the two goroutines share (rows.err): the consumer's next step reads it ... *)
+  Definition consumer_reads_err (s : st) : bool :=
+    if closing s then wg_done s
+    else match todo s with
+         | CNext :: _ => match pc s with PSelect _ => false | _ => closed s end
+         | _ => false
+         end.
+  (* ... only when the producer is past its write and past the event that publishes it
+     (wg.Done before Close's wg.Wait returns; close(ch) before the receive reports closed) *)
+  Theorem err_read_after_write prog s : reach (init rows fin0 prog) s -> consumer_reads_err s = true ->
+    (closing s = true /\ (pc s = PWgDone \/ pc s = PClosed)) \/ (closing s = false /\ pc s = PClosed).
+  Proof.
+    intros H Hr. destruct (inv_reach prog s H) as [_ _ _ Hc _ _ _ _]. unfold consumer_reads_err in Hr.
+    destruct (closing s).
+    - left. split; [reflexivity|]. destruct (pc s); cbn in Hc; auto; (destruct Hc as (_ & B & _) || destruct Hc as (B & _)); congruence.
+    - right. split; [reflexivity|]. destruct (todo s) as [|[| |] rest]; try discriminate.
+      destruct (pc s); cbn in Hc; try discriminate; auto; (destruct Hc as (_ & _ & B) || destruct Hc as (_ & B)); congruence.
+  Qed.
 End P.
